@@ -248,6 +248,16 @@ def _strip(node: ast.AST) -> ast.AST:
             x.annotation = None
         if isinstance(x, ast.AnnAssign):
             x.annotation = ast.Constant(value=None)
+    # `x: T = v` and `x = v` are the same statement for the purposes of the shape
+    class _T(ast.NodeTransformer):
+        def visit_AnnAssign(self, a):
+            self.generic_visit(a)
+            if a.value is not None and a.simple:
+                return ast.copy_location(ast.Assign(targets=[a.target], value=a.value), a)
+            return a
+
+    n = _T().visit(n)
+    ast.fix_missing_locations(n)
     return n
 
 
@@ -309,11 +319,29 @@ def baseline_locals() -> Dict[str, Dict]:
 def alias_of(fi: "FuncInfo", baseline_name: str) -> Optional[str]:
     """the current name of the local that was called `baseline_name` when the specification was written, if the function
     only differs from the baseline by the names of its locals; None otherwise"""
+    r = alias_of2(fi, baseline_name)
+    return r[0] if r is not None and r[1] else None
+
+
+def alias_of2(fi: "FuncInfo", baseline_name: str):
+    """(current name, exact?)  exact: the function differs from the baseline only by the names of its locals.  Otherwise a
+    HEURISTIC guess for a restructured function: the baseline locals that no longer exist are matched, in order of first
+    occurrence, with the locals that did not exist in the baseline.  A guess may be wrong, so whoever uses it must not
+    trust a counter-model obtained with it (the caller marks the path `refutable: 0`: proved stays proved, a failure
+    becomes undecided)."""
     b = baseline_locals().get(fi.qualname)
-    if not b or b.get("shape") != shape_hash(fi.node):
+    if not b:
         return None
     cur = local_names(_strip(fi.node))
     old = b.get("locals", [])
-    if len(cur) != len(old) or baseline_name not in old:
+    if baseline_name not in old:
         return None
-    return cur[old.index(baseline_name)]
+    if b.get("shape") == shape_hash(fi.node):
+        if len(cur) != len(old):
+            return None
+        return cur[old.index(baseline_name)], True
+    gone = [n for n in old if n not in cur]
+    new = [n for n in cur if n not in old]
+    if baseline_name in gone and gone.index(baseline_name) < len(new):
+        return new[gone.index(baseline_name)], False
+    return None
